@@ -3,6 +3,7 @@ package checks
 import (
 	"bytes"
 	"fmt"
+	"os"
 
 	"verifharness/drv"
 	"verifharness/gen"
@@ -109,11 +110,16 @@ func matchInvariants(text []byte, ms []wire.Match, am gen.Amount, checkCols bool
 
 func C03(r *drv.Run) {
 	r.BuildWorker()
+	if os.Getenv("VERIF_FAMILY") == "huge" {
+		// debugging aid: the huge-text family alone (never set by a registered command)
+		c03Huge(r)
+		return
+	}
 	n, ntext := 6000, 10
 	if !quick(r) {
 		n, ntext = 200000, 12
 	}
-	r.Rule = "programs from the union of all generators (core language, regex literals, named loops, whole line/word/file, every amount clause, replace commands) x multi-line inputs derived from the program (newline-heavy alphabet, \\r\\n, some non-ASCII). Plus the exhaustive capture shapes of C02 (first alternatives that fail, abandoned iterations, named loops over inner loops) on all texts over {a,b} up to length 4, and its last-path shapes (an optional capture on the path tried last) on all texts over {a,b,c} up to length 4; plus linear-time programs over long inputs (thousands of short lines, single lines of 6 000 and 70 000 bytes, a text whose candidates are 3 000 .. 20 000 bytes and many lines apart, CR LF line ends, matches spanning newlines; offsets beyond 65 536, line numbers beyond 2 000, columns beyond 5 000; and three programs - among them `whole file`, one read of the whole input - on inputs of 1 MiB + 37, 2 MiB and 2 MiB + 600 bytes). The same invariants on what RunFiles reports for files on disk that begin with byte-order marks (UTF-8, UTF-16, half of one, two of them), an interpreter line, magic numbers, NUL bytes or an empty line, of sizes up to 9 000 bytes on both sides of 4 096. Characters whose code point ends in the byte of a line feed, carriage return, tab or blank (U+010A, U+4E0A, U+1F60A, U+010D ...) consumed whole by literals, negated literals, back-references, ranges and whole file/line, and skipped by the scan (32 programs x 13 texts). RunFiles searching file NAMES (third argument): six find programs over ten spellings of directory and file arguments - the searched text of a match is the name it reports as Filename. Oracle: invariants recomputed from the input text alone on every reported match: bounds, Value == text[Start:End], order/non-overlap, consecutive MatchNumber (first number fixed by the amount clause), 1-based Line and byte Column of both ends from a newline index (columns: ASCII texts only), every string variable - recursively through named-loop maps - a substring of Value. Non-trivial = run returned >= 1 match; distinct by (program, text)."
+	r.Rule = "programs from the union of all generators (core language, regex literals, named loops, whole line/word/file, every amount clause, replace commands) x multi-line inputs derived from the program (newline-heavy alphabet, \\r\\n, some non-ASCII). Plus the exhaustive capture shapes of C02 (first alternatives that fail, abandoned iterations, named loops over inner loops) on all texts over {a,b} up to length 4, and its last-path shapes (an optional capture on the path tried last) on all texts over {a,b,c} up to length 4; plus linear-time programs over long inputs (thousands of short lines, single lines of 6 000 and 70 000 bytes, a text whose candidates are 3 000 .. 20 000 bytes and many lines apart, CR LF line ends, matches spanning newlines; offsets beyond 65 536, line numbers beyond 2 000, columns beyond 5 000; and three programs - among them `whole file`, one read of the whole input - on inputs of 1 MiB + 37, 2 MiB and 2 MiB + 600 bytes). The same invariants on what RunFiles reports for files on disk that begin with byte-order marks (UTF-8, UTF-16, half of one, two of them), an interpreter line, magic numbers, NUL bytes or an empty line, of sizes up to 9 000 bytes on both sides of 4 096. Characters whose code point ends in the byte of a line feed, carriage return, tab or blank (U+010A, U+4E0A, U+1F60A, U+010D ...) consumed whole by literals, negated literals, back-references, ranges and whole file/line, and skipped by the scan (32 programs x 13 texts). RunFiles searching file NAMES (third argument): six find programs over ten spellings of directory and file arguments - the searched text of a match is the name it reports as Filename. Thorough tier: two texts of 2^31 + 16 bytes (one single line; nothing but line feeds) taken whole by `find all whole file`: offsets, columns and line numbers beyond 32 bits, judged inside the worker. Oracle: invariants recomputed from the input text alone on every reported match: bounds, Value == text[Start:End], order/non-overlap, consecutive MatchNumber (first number fixed by the amount clause), 1-based Line and byte Column of both ends from a newline index (columns: ASCII texts only), every string variable - recursively through named-loop maps - a substring of Value. Non-trivial = run returned >= 1 match; distinct by (program, text)."
 	r.Assumptions = []string{
 		"single-command programs (results of several commands are concatenated; C13 covers that)",
 		"column claim checked on ASCII texts only, as the property says",
@@ -207,6 +213,9 @@ func C03(r *drv.Run) {
 	c03Files(r)
 	c03Runes(r)
 	c03Names(r)
+	if !quick(r) {
+		c03Huge(r)
+	}
 	// the exhaustive capture shapes of C02 (captures in first alternatives that fail, in abandoned iterations, inside
 	// named loops under inner loops) under C03's invariants: a binding that survives backtracking is often text
 	// that is no part of the final match
